@@ -236,6 +236,7 @@ fn body_split_navigate(m: &mut M, q: P, hold_left: bool) -> Vec<(P, u32)> {
     if let Some(mut nv) = nav {
         let _ = nv.prefix();
         let _ = nv.value();
+        let _ = format!("{:?}", nv);
         h.poke();
         let _ = nv.has_left() | nv.has_right();
         h.poke();
@@ -276,6 +277,21 @@ fn body_split_navigate(m: &mut M, q: P, hold_left: bool) -> Vec<(P, u32)> {
             extra.push((p, 11));
         }
         h.poke();
+        // a read-only view of this half while the references into the other half are alive
+        {
+            let ro = (&nv).view();
+            let n = ro.iter().count() + ro.keys().count() + ro.values().count();
+            h.poke();
+            let _ = ro.prefix();
+            let _ = ro.value();
+            let _ = ro.prefix_value();
+            h.poke();
+            let m = [ro.find(q), ro.find_exact(&q), ro.find_lpm(&q), ro.left(), ro.right()].iter().flatten().map(|v| v.iter().count()).sum::<usize>();
+            h.poke();
+            let u = ro.clone().union(ro.clone()).count() + ro.clone().intersection(ro.clone()).count() + ro.clone().difference(ro.clone()).count();
+            assert!(m <= 5 * n && u >= n / 3);
+            h.poke();
+        }
         // take the value out of the node and put it back (the node stays in the tree)
         if let Some(old) = nv.remove() {
             h.poke();
